@@ -28,6 +28,9 @@ C17, growth round 6: the boundary of the Itoh condition, orientation symmetry, a
 * `session_wrap_flip` — `wrap_flip_agree` inside any history of calls, either call first.
 * `assemble_mean_zero`, `unwrap_output_mean_zero` — the single constant is the mean: every result on a
   non-empty grid sums to zero over all pixels.
+* `unwrap_negation_equivariant` — for EVERY input and order, negating the input negates the output
+  (`negOff_findAux/find/union/unionAll/finalOffsets`, `find_wrap_neg`, `assemble_neg`): a descending
+  field is unwrapped exactly as the mirror image of the ascending one.
 -/
 namespace QuantemModel.Props.C17
 open QuantemModel QuantemModel.Unwrap QuantemModel.Unwrap.UF
@@ -514,5 +517,165 @@ theorem unwrap_output_mean_zero (half : ℝ) (N : Nat) (hN : 0 < N) (w : Nat →
 
 example : (unwrapPhase2d (1 : Rat) 1 4 (fun i => #[0, 3/4, -1/2, 1/4].getD i 0) [(2, 3), (0, 1), (1, 2)]).map
     (fun o => Num.sum o) = some 0 := by decide +kernel
+
+/-! ## 15. Orientation symmetry of the whole run -/
+
+/-- the union–find structure with every stored offset negated -/
+def negOff (u : UF) : UF := { u with offset := u.offset.map (fun x => -x) }
+
+theorem negOff_par (u : UF) (i : Nat) : (negOff u).par i = u.par i := rfl
+theorem negOff_rk (u : UF) (i : Nat) : (negOff u).rk i = u.rk i := rfl
+theorem negOff_off (u : UF) (i : Nat) : (negOff u).off i = - u.off i := by
+  simp only [negOff, UF.off, Array.getD_eq_getD_getElem?, Array.getElem?_map]
+  cases u.offset[i]? <;> simp
+
+theorem negOff_findAux (u : UF) : ∀ (fuel z : Nat) (acc : Int),
+    (negOff u).findAux fuel z acc = (u.findAux fuel z (-acc)).map fun p => (p.1, -p.2) := by
+  intro fuel
+  induction fuel with
+  | zero => intro z acc; simp [findAux]
+  | succ k ih =>
+    intro z acc
+    rw [findAux_succ, findAux_succ, negOff_par, negOff_off]
+    by_cases hp : u.par z = z
+    · simp [hp]
+    · simp only [ne_eq, hp, not_false_eq_true, if_true]
+      rw [ih]
+      congr 2
+      ring
+
+theorem negOff_find (u : UF) (x : Nat) :
+    (negOff u).find x = (u.find x).map fun p => (p.1, -p.2) := by
+  unfold UF.find
+  have : (negOff u).parent.size = u.parent.size := rfl
+  rw [this, negOff_findAux]
+  simp
+
+theorem negOff_union (u : UF) (x y : Nat) (inc : Int) :
+    (negOff u).union x y (-inc) = (u.union x y inc).map negOff := by
+  unfold UF.union
+  rw [negOff_find, negOff_find]
+  cases hx : u.find x with
+  | none => simp
+  | some px =>
+    cases hy : u.find y with
+    | none => simp
+    | some py =>
+      obtain ⟨rx, ox⟩ := px
+      obtain ⟨ry, oy⟩ := py
+      simp only [Option.map_some, negOff_rk]
+      by_cases hr : (rx == ry) = true
+      · simp [hr]
+      · simp only [hr, Bool.false_eq_true, if_false]
+        by_cases hk : u.rk rx < u.rk ry
+        · simp only [hk, if_true, Option.map_some, Option.some.injEq]
+          simp only [negOff, Array.map_setIfInBounds]
+          congr 2
+          ring
+        · simp only [hk, if_false, Option.map_some, Option.some.injEq]
+          simp only [negOff, Array.map_setIfInBounds]
+          congr 2
+          ring
+
+/-- every increment negated -/
+def negEdges (es : List Edge) : List Edge := es.map fun e => { e with inc := -e.inc }
+
+theorem negOff_unionAll : ∀ (es : List Edge) (u : UF),
+    unionAll (negOff u) (negEdges es) = (unionAll u es).map negOff := by
+  intro es
+  induction es with
+  | nil => intro u; simp [negEdges, unionAll]
+  | cons e es ih =>
+    intro u
+    simp only [negEdges, List.map_cons, unionAll]
+    rw [negOff_union]
+    cases h : u.union e.i1 e.i2 e.inc with
+    | none => simp
+    | some u' => simpa [negEdges] using ih u'
+
+theorem negOff_init (N : Nat) : negOff (UF.init N) = UF.init N := by
+  simp [negOff, UF.init]
+
+theorem allSome_map {α β : Type} (f : α → β) : ∀ l : List (Option α),
+    allSome (l.map (Option.map f)) = (allSome l).map (List.map f) := by
+  intro l
+  induction l with
+  | nil => simp [allSome]
+  | cons x xs ih =>
+    cases x with
+    | none => simp [allSome]
+    | some a =>
+      simp only [List.map_cons, Option.map_some, allSome, ih]
+      cases allSome xs <;> simp
+
+theorem negOff_finalOffsets (u : UF) :
+    finalOffsets (negOff u) = (finalOffsets u).map (List.map fun k => -k) := by
+  unfold finalOffsets
+  have : (negOff u).parent.size = u.parent.size := rfl
+  rw [this, ← allSome_map]
+  congr 1
+  simp only [List.map_map]
+  refine List.map_congr_left fun i _ => ?_
+  simp only [Function.comp, negOff_find]
+  cases u.find i <;> simp
+
+theorem find_wrap_neg (half a b : ℝ) (hh : 0 < half) : findWrap half (-a) (-b) = - findWrap half a b := by
+  rw [← find_wrap_antisymm half a b hh, findWrap_real, findWrap_real]
+  have : -a - -b = b - a := by ring
+  rw [this]
+
+theorem edgesOfPairs_neg (half : ℝ) (hh : 0 < half) (w : Nat → ℝ) (pairs : List (Nat × Nat)) :
+    edgesOfPairs half (fun i => - w i) pairs = negEdges (edgesOfPairs half w pairs) := by
+  simp only [edgesOfPairs, negEdges, List.map_map]
+  refine List.map_congr_left fun p _ => ?_
+  simp [Function.comp, find_wrap_neg half _ _ hh]
+
+theorem sum_map_neg_real (xs : List ℝ) : (xs.map fun x => -x).sum = - xs.sum := by
+  induction xs with
+  | nil => simp
+  | cons x xs ih => simp only [List.map_cons, List.sum_cons, ih]; ring
+
+theorem assemble_neg (half : ℝ) (N : Nat) (w : Nat → ℝ) (incs : List Int) :
+    assemble half N (fun i => - w i) (incs.map fun k => -k) = (assemble half N w incs).map fun x => -x := by
+  unfold assemble
+  simp only [Num.sum, foldl_add_real, NumReal.zero_eq, zero_add, NumReal.div_eq, NumReal.ofNat_eq, List.map_map]
+  have hf : ((List.range N).map fun i => (fun i => - w i) i + Num.two * half * Num.ofInt ((incs.map fun k => -k).toArray.getD i 0))
+      = ((List.range N).map fun i => w i + Num.two * half * Num.ofInt (incs.toArray.getD i 0)).map fun x => -x := by
+    rw [List.map_map]
+    refine List.map_congr_left fun i _ => ?_
+    simp only [Function.comp, Array.getD_eq_getD_getElem?, List.getElem?_toArray, List.getElem?_map,
+      NumReal.two_eq, NumReal.ofInt_eq]
+    cases incs[i]? <;> simp <;> ring
+  rw [hf, sum_map_neg_real]
+  refine List.map_congr_left fun i _ => ?_
+  simp only [Function.comp, Array.getD_eq_getD_getElem?, List.getElem?_toArray, List.getElem?_map,
+    NumReal.two_eq, NumReal.ofInt_eq, NumReal.sub_eq]
+  cases incs[i]? <;> simp <;> ring
+
+/-- **Orientation symmetry of the whole run.**  For EVERY input (no smoothness), every edge list in
+every order: negating the input negates the output — all increments, all stored offsets and the
+subtracted mean change sign, parents and ranks (hence the trees and the merge decisions) stay.  A
+field that falls through the branch cut is unwrapped exactly as the mirror image of the field
+that rises through it; nothing in the union–find bookkeeping depends on the sign of an offset. -/
+theorem unwrap_negation_equivariant (half : ℝ) (hh : 0 < half) (N : Nat) (w : Nat → ℝ) (order : List (Nat × Nat)) :
+    unwrapSorted half N (fun i => - w i) (edgesOfPairs half (fun i => - w i) order)
+      = (unwrapSorted half N w (edgesOfPairs half w order)).map (List.map fun x => -x) := by
+  rw [edgesOfPairs_neg half hh]
+  unfold unwrapSorted
+  have h := negOff_unionAll (edgesOfPairs half w order) (UF.init N)
+  rw [negOff_init] at h
+  rw [h]
+  cases h1 : unionAll (UF.init N) (edgesOfPairs half w order) with
+  | none => simp
+  | some u =>
+    simp only [Option.map_some, negOff_finalOffsets]
+    cases h2 : finalOffsets u with
+    | none => simp
+    | some incs => simp [assemble_neg]
+
+/-- executed at `Rat`: the descending ramp `0, −3/4, −3/2, −9/4` (·π) comes back as the mirror image of the
+ascending one -/
+example : unwrapPhase2d (1 : Rat) 1 4 (fun i => #[0, -3/4, 1/2, -1/4].getD i 0) [(2, 3), (0, 1), (1, 2)]
+    = some [9/8, 3/8, -3/8, -9/8] := by decide +kernel
 
 end QuantemModel.Props.C17
